@@ -1,5 +1,5 @@
 """property id -> rules, explanation of what is / is not decided"""
-from rules import r_coord, r_keyid, r_opcode, r_doaction, r_cancel, r_idle, r_loop
+from rules import r_coord, r_keyid, r_opcode, r_doaction, r_cancel, r_idle, r_loop, r_traverse, r_repeat
 
 PROPS = {
     "C01": {
@@ -48,6 +48,22 @@ PROPS = {
                        "before handle_time_ticks, after handle_input_event.",
         "not_decided": "full two-run equivalence for all continuations; wall-clock to tick conversion arithmetic; the exemption "
                        "table's semantic reasons are reviewed, not machine-checked",
+    },
+    "C09": {
+        "rules": [r_traverse.run_chords],
+        "explanation": "Narrow: decides that the two walkers that bind (chord ...) keys to their defchords group "
+                       "(find_chords_coords, fill_chords) pass every nested action of every Action variant — derived from the "
+                       "Action type — to their recursive call, so a chord key is found wherever the grammar allows an action.",
+        "not_decided": "exact-set activation, press-order independence, decomposition order, v2 candidate search — run-time values",
+    },
+    "C14": {
+        "rules": [r_traverse.run_repeat, r_repeat.run_outputs, r_repeat.run],
+        "explanation": "Decides: the repeat-table builder passes every nested action of every Action variant (derived from the "
+                       "type) to its recursion and records every key-code-bearing variant (R-TRAVERSE, R-RPT-TABLE); in "
+                       "handle_repeat_actual every write of a repeat is reachable only through a 'key currently held' test, at "
+                       "most one repeat is written per event, the override pass precedes the tests, and the sequence input modes "
+                       "in which the repeat path continues are modes in which typed keys are really pressed at the OS (R-RPT-GUARD).",
+        "not_decided": "which of several output keys is preferred; layer search order — run-time values",
     },
     "C10": {
         "rules": [r_opcode.run_all],
